@@ -192,6 +192,7 @@ func runProp(spec *PropSpec, tier, mutant string, noMut bool) (code int) {
 		runRound20(c, spec)
 		runRound21(c, spec)
 		runRound22(c, spec)
+		runRound22b(c, spec)
 		if c.Whole && spec.Thorough != nil {
 			spec.Thorough(c)
 		}
